@@ -98,6 +98,18 @@ def matmulSlice (rows cols sumLen : Nat) (a : List S) (ta : Bool) (b : List S) (
 def cycleTake (v : List S) (n : Nat) : R (List S) :=
   if v.isEmpty then throw .modelGap else tabulateM (fun i => getR v (i % v.length)) n
 
+/-- the initial content of an output block: the additive term's block cycled over it, or zeros -/
+def matmulInit (setOutput : Bool) (z : List S) (outGroup : Nat) : R (List S) :=
+  if setOutput then cycleTake z outGroup else pure (List.replicate outGroup zero)
+
+/-- the slice operation `matmul` hands to `sliced_op` -/
+def matmulOp (rows cols sumLen : Nat) (ta tb setOutput : Bool) (outGroup : Nat) (slices : List (List S)) : R (List S) :=
+  match slices with
+  | [x, y, z] => do
+    let init ← matmulInit setOutput z outGroup
+    matmulSlice rows cols sumLen x ta y tb init
+  | _ => throw .modelGap
+
 /-- The shape bookkeeping of `Array::matmul`: `(inputDims, outputDims, rows, cols, sumLen)`. -/
 def matmulShape (ad : List Nat) (ta : Bool) (bd : List Nat) (tb : Bool) :
     R (List Nat × List Nat × Nat × Nat × Nat) := do
@@ -122,10 +134,8 @@ def matmulShape (ad : List Nat) (ta : Bool) (bd : List Nat) (tb : Bool) :
   let outDims := inDims.take leadingCount ++ (if inDims.length < 2 then [cols] else [rows, cols])
   pure (inDims, outDims, rows, cols, sumLen)
 
-/-- `Array::matmul((a, ta), (b, tb), c)` -/
-def matmul (a : Tensor S) (ta : Bool) (b : Tensor S) (tb : Bool) (c : Option (Tensor S)) :
-    R (Tensor S) := do
-  let (inDims, outDims, rows, cols, sumLen) ← matmulShape a.dims ta b.dims tb
+/-- the additive term must be a single value, or have `cols` columns and 1 or `rows` rows -/
+def addTermCheck (c : Option (Tensor S)) (rows cols : Nat) : R Unit :=
   match c with
   | some c =>
     if c.vals.length != 1 then do
@@ -135,20 +145,24 @@ def matmul (a : Tensor S) (ta : Bool) (b : Tensor S) (tb : Bool) (c : Option (Te
                      let cr ← dimFromEnd c.dims 2
                      pure (cr == 1 || cr == rows)
       if !(cl == cols && rowsOk) then throw .additive
+    else pure ()
   | none => pure ()
+
+/-- the third operand `matmul` stores and slices: the additive term, or a fresh `arr![0.0]` -/
+def cOperand (c : Option (Tensor S)) : Tensor S :=
+  match c with
+  | some c => c
+  | none => ⟨[1], [zero]⟩
+
+/-- `Array::matmul((a, ta), (b, tb), c)` -/
+def matmul (a : Tensor S) (ta : Bool) (b : Tensor S) (tb : Bool) (c : Option (Tensor S)) :
+    R (Tensor S) := do
+  let (inDims, outDims, rows, cols, sumLen) ← matmulShape a.dims ta b.dims tb
+  addTermCheck c rows cols
   let setOutput := c.isSome
   let leadingCount := inDims.length - 2
   let outGroup := prod (outDims.drop leadingCount)
-  let op : List (List S) → R (List S) := fun slices =>
-    match slices with
-    | [x, y, z] => do
-      let init ← if setOutput then cycleTake z outGroup else pure (List.replicate outGroup zero)
-      matmulSlice rows cols sumLen x ta y tb init
-    | _ => throw .modelGap
-  let cT : Tensor S := match c with
-    | some c => c
-    | none => ⟨[1], [zero]⟩
-  slicedOp [a, b, cT] op inDims outDims 2 0
+  slicedOp [a, b, cOperand c] (matmulOp rows cols sumLen ta tb setOutput outGroup) inDims outDims 2 0
 
 /-- `unroll_blocks(image, strides, filter)` (im2col) -/
 def unrollBlocks (image : Tensor S) (sr sc fr fc : Nat) : R (Tensor S) := do
